@@ -923,6 +923,11 @@ impl SimSend {
             total += bytes.len();
             let mut n = net.lock().unwrap();
             obs::ev("write", id, bytes.len() as u64);
+            if n.dirs.get(&(id, side)).map(|d| d.sent.len()).unwrap_or(0) > (512 << 10) {
+                // no scenario writes that much on one stream: a write buffer whose remaining() never reaches 0
+                n.contract.push(format!("stream {id}: more than 512 KiB written on one stream (a write that never completes)"));
+                return Poll::Ready(Err(StreamErrorIncoming::Unknown(Box::new(SimErr("runaway write")))));
+            }
             n.dirs.get_mut(&(id, side)).unwrap().sent.extend_from_slice(&bytes);
             if one_shot {
                 return Poll::Ready(Ok(total));
